@@ -193,3 +193,123 @@ func firstCall(f *ssa.Function, objs ...*types.Func) ssa.CallInstruction {
 	}
 	return cs[0]
 }
+
+// clientLoginLoop finds the client Service method that builds controls (the one whose closures call
+// client.NewControl: loopLoginUntilSuccess on the confirmed tree) by what it does, so a rename is followed.
+func clientLoginLoop(c *engine.Ctx) *ssa.Function {
+	nc := funcObj(c, "client", "NewControl")
+	svc := c.P.Named("client", "Service")
+	if nc == nil || svc == nil {
+		return nil
+	}
+	var hit []*ssa.Function
+	for _, f := range c.P.RepoFuncs() {
+		if f.Parent() != nil || f.Signature.Recv() == nil || engine.NamedOf(f.Signature.Recv().Type()) != svc {
+			continue
+		}
+		if len(engine.CallsToDeep(f, nc)) > 0 {
+			hit = append(hit, f)
+		}
+	}
+	if len(hit) != 1 {
+		c.Missing("client.Service.<login loop>", "expected exactly one client.Service method creating controls with NewControl, found %d", len(hit))
+		return nil
+	}
+	return hit[0]
+}
+
+// clientSupervisor finds the client Service method that re-runs the login loop from inside a closure (the
+// BackoffUntil body of keepControllerWorking on the confirmed tree).
+func clientSupervisor(c *engine.Ctx, loginLoop *ssa.Function) *ssa.Function {
+	svc := c.P.Named("client", "Service")
+	lo, _ := loginLoop.Object().(*types.Func)
+	if svc == nil || lo == nil {
+		return nil
+	}
+	var hit []*ssa.Function
+	for _, f := range c.P.RepoFuncs() {
+		if f.Parent() != nil || f == loginLoop || f.Signature.Recv() == nil || engine.NamedOf(f.Signature.Recv().Type()) != svc {
+			continue
+		}
+		in := false
+		for _, a := range allAnon(f) {
+			if len(engine.CallsTo(a, lo)) > 0 {
+				in = true
+			}
+		}
+		if in {
+			hit = append(hit, f)
+		}
+	}
+	if len(hit) != 1 {
+		c.Missing("client.Service.<supervisor>", "expected exactly one client.Service method that re-runs the login loop from a retry closure, found %d", len(hit))
+		return nil
+	}
+	return hit[0]
+}
+
+// srcSet is the provenance of a value seen through one level of helper extraction: the value's own sources plus, for
+// every parameter of the hosting helper among them, the sources of the matching argument at each call of the helper
+// from the given callers.
+type srcSet []*engine.Sources
+
+func (ss srcSet) HasField(f *types.Var) bool {
+	for _, s := range ss {
+		if s.HasField(f) {
+			return true
+		}
+	}
+	return false
+}
+
+func (ss srcSet) HasCallNamed(pkg string, names ...string) bool {
+	for _, s := range ss {
+		for k := range s.Calls {
+			if k.Pkg() != nil && k.Pkg().Path() == pkg {
+				for _, n := range names {
+					if k.Name() == n {
+						return true
+					}
+				}
+			}
+		}
+	}
+	return false
+}
+
+func provThroughCallers(v ssa.Value, host *ssa.Function, callers ...*ssa.Function) srcSet {
+	own := engine.Provenance(v, engine.ProvOpts{})
+	out := srcSet{own}
+	hobj, _ := host.Object().(*types.Func)
+	if hobj == nil {
+		return out
+	}
+	for _, cf := range callers {
+		if cf == host {
+			continue
+		}
+		for _, call := range engine.CallsToDeep(cf, hobj) {
+			for i, pr := range host.Params {
+				if own.Params[pr] && i < len(call.Common().Args) {
+					out = append(out, engine.Provenance(call.Common().Args[i], engine.ProvOpts{}))
+				}
+			}
+		}
+	}
+	return out
+}
+
+// withHelpers returns f followed by the same-package functions f calls statically (one level, no closures).
+func withHelpers(f *ssa.Function) []*ssa.Function {
+	out := []*ssa.Function{f}
+	seen := map[*ssa.Function]bool{f: true}
+	engine.ForEachInstr(f, func(in ssa.Instruction) {
+		if call, ok := in.(ssa.CallInstruction); ok {
+			if cf := engine.CalleeFn(call); cf != nil && cf.Blocks != nil && cf.Pkg == f.Pkg && cf.Parent() == nil && !seen[cf] {
+				seen[cf] = true
+				out = append(out, cf)
+			}
+		}
+	})
+	return out
+}
